@@ -6,11 +6,12 @@
 (* by a Shadowsocks client; sink sockets; recording metrics).              *)
 (*                                                                         *)
 (*  {"ev":"Dec","a":[..],"form":4|16,"rej":b,"status":s}   RequirePublicIP(a) returned s                          *)
-(*  {"ev":"Tcp","id":n,"d":{t,k,a,z,h},"ans":[[..]..]}     a client asked for destination d (ans = what the fake  *)
+(*  {"ev":"Tcp","id":n,"log":"info"|"debug","d":{t,k,a,z,h},"ans":[[..]..]}  (log = level of the handler's logger)   *)
+(*                                                          a client asked for destination d (ans = what the fake  *)
 (*                                                          DNS server serves for d.h)                             *)
 (*  {"ev":"Contact","id":n,"a":[..]}                       the sink bound to address a accepted a connection of n *)
 (*  {"ev":"Closed","id":n,"status":s,"echo":b}             AddClosed(s); the client got the stand-in's greeting   *)
-(*  {"ev":"Udp","id":n}                                    a new association (fresh client socket + handler)      *)
+(*  {"ev":"Udp","id":n,"log":..}                                  a new association (fresh client socket + handler)      *)
 (*  {"ev":"Pkt","id":n,"pos":i,"d":{..},"ans":[..]}        i-th datagram of the association                       *)
 (*  {"ev":"Sent","id":n,"pos":i,"a":[..]}                  the sink bound to a received that datagram             *)
 (*  {"ev":"Rep","id":n,"pos":i,"reported":b,"status":s,"nat":b}  AddPacketFromClient(s) was (not) called; a NAT   *)
@@ -50,7 +51,7 @@ TrDec == /\ IsEvent("Dec")
          /\ LET a  == Trace[l].a
                 inp == IF Trace[l].form = 16 /\ IsV4(a) THEN Map(a) ELSE a   \* the byte form handed to the function
                 st == Trace[l].status IN
-              /\ q' = inp /\ qstat' = st /\ dphase' = "done" /\ mode' = "dec"
+              /\ q' = inp /\ qstat' = st /\ dphase' = "done" /\ mode' = "dec" /\ loglvl' = "info"
               /\ NoteViol(Kind2(MustReject(inp) /\ st \notin AddrErr, "table-not-rejected",
                                 MustAccept(inp) /\ st # "OK", "table-public-rejected"))
               /\ NoteDrift(st # CodeStatus(inp))
@@ -59,7 +60,7 @@ TrDec == /\ IsEvent("Dec")
 
 (* ---- TCP ---- *)
 TrTcp == /\ IsEvent("Tcp")
-         /\ mode' = "tcp" /\ treq' = Trace[l].d /\ ans' = Range(Trace[l].ans)
+         /\ mode' = "tcp" /\ loglvl' = Trace[l].log /\ treq' = Trace[l].d /\ ans' = Range(Trace[l].ans)
          /\ tphase' = "dial" /\ todo' = {} /\ firstErr' = "" /\ tstatus' = "" /\ contacted' = {}
          /\ nscn' = nscn + 1
          /\ UNCHANGED <<uvars, dvars, tr, viols, drifts>>
@@ -68,7 +69,7 @@ TrContact == /\ IsEvent("Contact")
                   /\ contacted' = contacted \cup {a}
                   /\ NoteViol(IF MustReject(a) THEN "private-contact" ELSE "")
                   /\ NoteDrift(a \notin {c.w : c \in AllowedTcp(CandsOf(treq, ans))})
-             /\ UNCHANGED <<mode, tphase, treq, todo, firstErr, tstatus, uvars, dvars, tr, nscn, ans>>
+             /\ UNCHANGED <<mode, loglvl, tphase, treq, todo, firstErr, tstatus, uvars, dvars, tr, nscn, ans>>
 TrClosed == /\ IsEvent("Closed")
             /\ LET C  == CandsOf(treq, ans)
                    st == Trace[l].status IN
@@ -77,11 +78,11 @@ TrClosed == /\ IsEvent("Closed")
                                    AllAccept(C) /\ st \in AddrErr, "public-rejected"))
                  /\ NoteDrift(\/ ~\E o \in TcpOutcomes(C) : o[2] = st /\ o[1] \cap Sinks = contacted
                               \/ (AllAccept(C) /\ (\E c \in C : c.w \in StandIn) /\ ~Trace[l].echo))
-            /\ UNCHANGED <<mode, treq, todo, firstErr, contacted, uvars, dvars, tr, nscn, ans>>
+            /\ UNCHANGED <<mode, loglvl, treq, todo, firstErr, contacted, uvars, dvars, tr, nscn, ans>>
 
 (* ---- UDP ---- *)
 TrUdp == /\ IsEvent("Udp")
-         /\ mode' = "udp" /\ nat' = FALSE /\ upos' = 0 /\ ustep' = "idle" /\ ucur' = NoDest /\ ucand' = NoCand
+         /\ mode' = "udp" /\ loglvl' = Trace[l].log /\ nat' = FALSE /\ upos' = 0 /\ ustep' = "idle" /\ ucur' = NoDest /\ ucand' = NoCand
          /\ ustat' = "" /\ sent' = {} /\ ulog' = <<>> /\ upk' = <<>> /\ ans' = {}
          /\ nscn' = nscn + 1
          /\ UNCHANGED <<tvars, dvars, tr, viols, drifts>>
@@ -89,13 +90,13 @@ TrPkt == /\ IsEvent("Pkt")
          /\ upos' = Trace[l].pos /\ ucur' = Trace[l].d /\ ans' = Range(Trace[l].ans)
          /\ upk' = Append(upk, Trace[l].d)
          /\ ustep' = IF nat THEN "known" ELSE "new"
-         /\ UNCHANGED <<mode, nat, ucand, ustat, sent, ulog, tvars, dvars, tr, viols, drifts, nscn>>
+         /\ UNCHANGED <<mode, loglvl, nat, ucand, ustat, sent, ulog, tvars, dvars, tr, viols, drifts, nscn>>
 TrSent == /\ IsEvent("Sent")
           /\ LET a == Trace[l].a IN
                /\ sent' = sent \cup {<<Trace[l].pos, a>>}
                /\ NoteViol(IF MustReject(a) THEN "private-contact" ELSE "")
                /\ NoteDrift(Trace[l].pos # upos)
-          /\ UNCHANGED <<mode, nat, upos, ustep, ucur, ucand, ustat, ulog, upk, tvars, dvars, tr, nscn, ans>>
+          /\ UNCHANGED <<mode, loglvl, nat, upos, ustep, ucur, ucand, ustat, ulog, upk, tvars, dvars, tr, nscn, ans>>
 TrRep == /\ IsEvent("Rep")
          /\ LET C   == CandsOf(ucur, ans)
                 st  == Trace[l].status
@@ -111,7 +112,7 @@ TrRep == /\ IsEvent("Rep")
                            \/ ~rep /\ Trace[l].nat
                            \/ (AllAccept(C) /\ (\E c \in C : c.w \in StandIn) /\ to = {}))
          /\ ustep' = "idle"
-         /\ UNCHANGED <<mode, upos, ucur, ucand, ustat, sent, upk, tvars, dvars, tr, nscn, ans>>
+         /\ UNCHANGED <<mode, loglvl, upos, ucur, ucand, ustat, sent, upk, tvars, dvars, tr, nscn, ans>>
 
 TrOrphan == /\ IsEvent("Orphan")
             /\ NoteViol(IF MustReject(Trace[l].a) THEN "private-contact" ELSE "")
